@@ -220,7 +220,26 @@ func TestC17(t *testing.T) {
 				text := model.VersText(scheme, cs)
 				probe := probes[rapid.IntRange(0, len(probes)-1).Draw(rt, "pi")]
 				kind := "valid"
-				switch rapid.IntRange(0, 5).Draw(rt, "mode") {
+				switch rapid.IntRange(0, 7).Draw(rt, "mode") {
+				case 6: // the very same (mostly invalid) string as the only bound and as the probe
+					x := probe
+					if gen.Chance(rt, "sameForeign", 1, 2) {
+						other := eco.All[rapid.IntRange(0, len(eco.All)-1).Draw(rt, "so")]
+						x = gen.Version(rt, other.Name, "sv")
+					} else {
+						x = gen.Corrupt(rt, probe, "sc")
+					}
+					if versBoundOK(x) {
+						text = "vers:" + scheme + "/" + gen.Pick(rt, "sop", "=", "=", ">=", "<=", "!=") + x
+						probe = x
+						kind = "same-string-bound-and-probe"
+					}
+				case 7: // white space inside the probe (VERS drops it from constraints, never from the probe)
+					if len(probe) > 1 {
+						i := rapid.IntRange(1, len(probe)-1).Draw(rt, "wi")
+						probe = probe[:i] + gen.Pick(rt, "wc", " ", "  ", "\t") + probe[i:]
+						kind = "blank-inside-probe"
+					}
 				case 0: // a version of another ecosystem as probe
 					other := eco.All[rapid.IntRange(0, len(eco.All)-1).Draw(rt, "oe")]
 					probe = gen.Version(rt, other.Name, "op")
